@@ -94,8 +94,8 @@ def run(tier, work, replay=None):
     v = Verdict("C08", tier)
     q = tier == "quick"
     rnd = random.Random(seed())
-    jobs = [("mc", dict(cfg=cfg(2, 2, 2, "NoDeviations", export=3000 if q else 150), workers=8)),
-            ("mc3", dict(cfg=cfg(3, 1, 1 if q else 2, "NoDeviations", export=200 if q else 250), workers=6)),
+    jobs = [("mc", dict(cfg=cfg(2, 2, 2, "NoDeviations", export=6000 if q else 250), workers=8)),
+            ("mc3", dict(cfg=cfg(3, 1, 1 if q else 2, "NoDeviations", export=1200 if q else 1500), workers=6)),
             ("dev", dict(cfg=cfg(2, 1, 2, "PreFix", invs=["MixinClassExists"]), workers=2))]
     if not q:
         jobs.append(("mc4", dict(cfg=cfg(4, 1, 1, "NoDeviations"), workers=8)))
